@@ -1841,9 +1841,18 @@ class Scenarios(Gen):
                 op = bi.emit(t)
                 ops += bi.ops
                 consumers[t.kind].append(op)
-                if r.random() < 0.2 and len(consumers[t.kind]) > 2:
-                    # a hit on an earlier entry (recently used / re-ordered)
+                x = r.random()
+                prev = None
+                if x < 0.18 and len(consumers[t.kind]) > 2:
+                    # a hit on a recent entry (re-orders a recency list)
                     prev = r.choice(consumers[t.kind][-40:])
+                elif x < 0.30 and len(consumers[t.kind]) > 2:
+                    # a hot entry: the first calls keep coming back through the whole
+                    # history (they are never the oldest, whatever the cache turns over)
+                    prev = r.choice(consumers[t.kind][:3])
+                elif x < 0.33 and len(consumers[t.kind]) > 50:
+                    prev = r.choice(consumers[t.kind])       # any earlier entry
+                if prev is not None:
                     again = dict(prev)
                     if "out" in again:
                         again["out"] = self.fresh_reg()
